@@ -43,7 +43,7 @@ func (w *zzClient) Write(p []byte) (int, error) {
 // which file was served:
 //
 //	<root>/a "A"   <root>/a.gz "G"   <root>/a.zst "S"
-//	<root>/d/ (directory)   <root>/d/i "I" (index page)   <root>/d/x "X"
+//	<root>/d/ (directory)   <root>/d/i "I" (index page)   <root>/d/x "X"   <root>/d/i.gz "J"   <root>/d/.gz "Z"
 //	<root>/h "H" (hidden: the Casketfile)   <root>/c "C"   <root>/c.gz "K" (hidden as well)
 //	<root>/../o "O" (outside the root)
 func zzSite() (root string) {
@@ -54,6 +54,8 @@ func zzSite() (root string) {
 	verifrt.FSPut(root+"/a.zst", []byte("S"))
 	verifrt.FSPut(root+"/d/i", []byte("I"))
 	verifrt.FSPut(root+"/d/x", []byte("X"))
+	verifrt.FSPut(root+"/d/i.gz", []byte("J")) // the index page's own precompressed sibling
+	verifrt.FSPut(root+"/d/.gz", []byte("Z"))  // a file whose whole name is the sibling extension
 	verifrt.FSPut(root+"/h", []byte("H"))
 	verifrt.FSPut(root+"/c", []byte("C"))
 	verifrt.FSPut(root+"/c.gz", []byte("K"))
@@ -109,10 +111,11 @@ func VerifH02bOnlyPermittedFiles() {
 			if zzOffers(accept, "zstd") {
 				allowed = append(allowed, "S")
 			}
-		case "/d":
+		case "/d", "/d/i":
 			allowed = []string{"I"}
-		case "/d/i":
-			allowed = []string{"I"}
+			if zzOffers(accept, "gzip") {
+				allowed = append(allowed, "J")
+			}
 		case "/d/x":
 			allowed = []string{"X"}
 		case "/c":
